@@ -17,8 +17,9 @@ MANIFEST = {
     "technique": "Rocq proof over a hand-written state-machine model of the correlation store (invariants by induction over all "
                  "operation histories, per-step consistency / isolation / rejection lemmas) + vm_compute correspondence of the model "
                  "with the implementation on random and exhaustive call histories + independent Fraction reference search",
-    "level_text": "Machine-checked theorems (C04_symmetric, C04_set_corr_ok, C04_set_cov_ok, C04_inferred_ok, C04_bounded, "
-                  "C04_reject_untouched, C04_accept_iff, C04_isolated, C04_default, C04_reset, C04_self; closed under the global "
+    "level_text": "Machine-checked theorems (C04_symmetric, C04_getters, C04_set_corr_ok, C04_set_cov_ok, C04_consistent, "
+                  "C04_accept_iff_corr/_cov, C04_reject_corr/_cov/_notq, C04_reject_untouched, C04_inferred_ok, C04_bounded, "
+                  "C04_isolated, C04_default, C04_reset, C04_self, C04_record_persists; closed under the global "
                   "context, exact rational arithmetic) about Model/Corr.v, a Gallina transcription of data.set_/get_ correlation and "
                   "covariance in function and method form, the guards of MeasuredValue / RepeatedlyMeasuredValue in source order, "
                   "the clamped inferred covariance, reset_correlations and the attribute writes that change a standard deviation. "
